@@ -4,20 +4,35 @@ Decides (DESIGN 5/C03): field-location flow and effects over LayoutSwapper.trans
 (scatter / gather / same-group / multi-step paths, with and without buffer), manager
 typestate, gathered/scattered role agreement of every getAxes result (index-ownership
 typing), Allgather geometry and symmetric replication, permutation typing.
+
+The gather and scatter arms are read symbolically (forward substitution of the arm's
+statements, see SymArm) on a behaviour-preserving view of the two single-step routines
+(C01.normal_view), so the verdict does not depend on temporaries, helper methods, the
+slicing idiom or the order of the arms.
 """
 from __future__ import annotations
 
 import ast
 
-from ..core import src, AnalysisError, parent, guards_of, contains
+from ..core import src, parent, guards_of, contains
 from ..resolve import Program, inline_locals, expand
 from .. import units as U
 from ..bufflow import Sym
-from ..geometry import ShapeFlow, canon_product
+from ..geometry import ShapeFlow
 from .. import permcheck
-from .C01 import flow_check, unwrap
+from .C01 import flow_check, normal_view, ModView, engine, xsrc
 
 CLS = "LayoutSwapper"
+STEP = ("LayoutSwapper._transpose", "LayoutSwapper._transpose_source_intact")
+
+
+def view_of(chk, mod, q):
+    """the behaviour-preserving view of a function the shape-reading rules work on (one per run)"""
+    cache = chk.__dict__.setdefault("_c03_views", {})
+    key = (mod.rel, q)
+    if key not in cache:
+        cache[key] = normal_view(mod.func(q))
+    return cache[key]
 
 
 def manager_final(chk, o, bdesc, n, path, same):
@@ -35,7 +50,6 @@ def manager_final(chk, o, bdesc, n, path, same):
 # ------------------------------------------------------------------ getAxes ownership typing
 def _layout_of_handler_expr(e, fn_env, handler_of):
     """self._managers[self._handlers[L.name]] -> 'L' ; Name h -> handler_of[h]"""
-    s = src(e)
     if isinstance(e, ast.Name):
         return handler_of.get(e.id)
     if isinstance(e, ast.Subscript) and src(e.value) == "self._managers":
@@ -51,20 +65,21 @@ def _layout_of_handler_expr(e, fn_env, handler_of):
 
 def axes_ownership(chk, mod, q):
     rel = mod.rel
-    fn = mod.func(q)
+    fn = view_of(chk, mod, q)
     chk.functions.add(f"{rel}:{q}")
-    # handler variables -> layout variables (h1 = self._managers[self._handlers[name1]]; l1 = h1.getLayout(name1))
+    # handler variables -> layout variables (h1 = self._managers[self._handlers[name1]]; l1 = h1.getLayout(name1);
+    # h = self._managers[self._handlers[L.name]])
     handler_of = {}
-    hname = {}
     for n in ast.walk(fn):
         if isinstance(n, ast.Assign) and isinstance(n.targets[0], ast.Name):
             t = n.targets[0].id
             v = n.value
-            if isinstance(v, ast.Subscript) and src(v.value) == "self._managers":
-                hname[t] = src(v.slice)
             if isinstance(v, ast.Call) and isinstance(v.func, ast.Attribute) and v.func.attr == "getLayout" \
                     and isinstance(v.func.value, ast.Name):
                 handler_of[v.func.value.id] = t
+            L = _layout_of_handler_expr(v, None, {}) if isinstance(v, ast.Subscript) else None
+            if L and not L.startswith("name:"):
+                handler_of[t] = L
     # ndims variables -> layout
     nd_of = {}
     for n in ast.walk(fn):
@@ -73,9 +88,6 @@ def axes_ownership(chk, mod, q):
             L = _layout_of_handler_expr(n.value.value, None, handler_of)
             if L:
                 nd_of[n.targets[0].id] = L
-    # list variables derived from a layout's shape
-    list_owner = {}
-    sf = ShapeFlow(fn)
     n_calls = 0
     for call in [c for c in ast.walk(fn) if isinstance(c, ast.Call) and isinstance(c.func, ast.Attribute)
                  and c.func.attr == "getAxes"]:
@@ -99,20 +111,22 @@ def axes_ownership(chk, mod, q):
                 a, b = test.left.id, test.comparators[0].id
                 if a in nd_of and b in nd_of:
                     facts.append((type(test.ops[0]).__name__, nd_of[a], nd_of[b], pol))
-        # also the guards of earlier elif arms (an `else` arm inherits their negation through guards_of)
         for op, a, b, pol in facts:
             if op == "Gt" and pol:
                 larger = a
             elif op == "Lt" and pol:
                 larger = b
         if larger is None:
-            neq = [(a, b) for op, a, b, pol in facts if op == "Eq" and not pol]
-            ngt = [(a, b) for op, a, b, pol in facts if op == "Gt" and not pol]
-            nlt = [(a, b) for op, a, b, pol in facts if op == "Lt" and not pol]
-            if neq and ngt:
-                larger = ngt[0][1]
-            elif neq and nlt:
-                larger = nlt[0][0]
+            neq = [(a, b) for op, a, b, pol in facts if (op == "Eq" and not pol) or (op == "NotEq" and pol)]
+            ngt = [(a, b) for op, a, b, pol in facts if (op == "Gt" and not pol) or (op == "LtE" and pol)]
+            nlt = [(a, b) for op, a, b, pol in facts if (op == "Lt" and not pol) or (op == "GtE" and pol)]
+            # not (a > b) and a != b  =>  b larger ;  not (a < b) and a != b  =>  a larger
+            for (a, b) in ngt:
+                if (a, b) in neq or (b, a) in neq:
+                    larger = b
+            for (a, b) in nlt:
+                if larger is None and ((a, b) in neq or (b, a) in neq):
+                    larger = a
         ok = larger is not None and larger == S
         chk.ob("A1-getaxes-role-order", call, src(st)[:100], ok if larger is not None else None,
                f"scattered argument `{S}` is the more distributed layout under the enclosing guard" if ok else
@@ -121,56 +135,49 @@ def axes_ownership(chk, mod, q):
                file=rel, func=q, facts={"guards": [str(f) for f in facts]})
         # ownership of the two results
         owners = {ig: G, is_: S}
-        # scope: statements after this call in the same block (until reassigned)
         block = parent(st)
         body = None
         for f in ("body", "orelse"):
-            if st in getattr(block, f, []):
+            if any(x is st for x in getattr(block, f, [])):
                 body = getattr(block, f)
         if body is None:
             continue
-        after = body[body.index(st) + 1:]
-        comm_owner = {}
+        after = body[[i for i, x in enumerate(body) if x is st][0] + 1:]
         for s2 in after:
             for n in ast.walk(s2):
-                # comm = <handler>.communicators[idx]
-                if isinstance(n, ast.Assign) and isinstance(n.targets[0], ast.Name) and isinstance(n.value, ast.Subscript) \
-                        and isinstance(n.value.value, ast.Attribute) and n.value.value.attr == "communicators":
-                    L = _layout_of_handler_expr(n.value.value.value, None, handler_of)
-                    idx = n.value.slice
-                    if isinstance(idx, ast.Name) and idx.id in owners:
-                        okc = (L == owners[idx.id])
-                        # communicators only exist on the scattered side for the changed direction
-                        oks = (owners[idx.id] == S)
-                        chk.ob("A1-index-ownership", n, src(n)[:110], (okc and oks) if L is not None else None,
-                               f"communicator of `{L}`'s handler indexed by the axis getAxes returned for `{owners[idx.id]}`"
-                               + ("" if okc and oks else " - index belongs to the other layout / the gathered side has no such communicator"),
+                if not (isinstance(n, ast.Name) and isinstance(n.ctx, ast.Load) and n.id in owners):
+                    continue
+                p = parent(n)
+                cont = None
+                if isinstance(p, ast.Subscript) and p.slice is n:
+                    c = p.value
+                    if isinstance(c, ast.Attribute) and c.attr == "communicators":
+                        # <handler>.communicators[idx]: communicators only exist on the scattered side for the changed direction
+                        L = _layout_of_handler_expr(c.value, None, handler_of)
+                        okc, oks = (L == owners[n.id]), (owners[n.id] == S)
+                        chk.ob("A1-index-ownership", n, src(enclosing(n))[:110], (okc and oks) if L is not None else None,
+                               f"communicator of `{L}`'s handler indexed by the axis getAxes returned for `{owners[n.id]}`"
+                               + ("" if okc and oks else " - index belongs to the other layout / the gathered side has no such communicator")
+                               if L is not None else f"cannot identify the layout whose handler `{src(c.value)[:40]}` is",
                                file=rel, func=q)
-                        comm_owner[n.targets[0].id] = L
-                if isinstance(n, ast.Name) and isinstance(n.ctx, ast.Load) and n.id in owners:
-                    p = parent(n)
-                    cont = None
-                    if isinstance(p, ast.Subscript) and p.slice is n:
-                        c = p.value
-                        if isinstance(c, ast.Attribute) and isinstance(c.value, ast.Name) and c.attr != "communicators":
-                            cont = c.value.id
-                        elif isinstance(c, ast.Name):
-                            cont = _list_owner(fn, c.id, n.lineno)
-                        elif isinstance(c, ast.Attribute) and c.attr == "communicators":
-                            continue  # handled above
-                    elif isinstance(p, ast.Call) and n in p.args and isinstance(p.func, ast.Attribute) \
-                            and p.func.attr in ("mpi_starts", "mpi_lengths") and isinstance(p.func.value, ast.Name):
-                        cont = p.func.value.id
-                    else:
                         continue
-                    if cont is None:
-                        chk.ob("A1-index-ownership", n, src(enclosing(n))[:110], None,
-                               f"cannot identify the layout that `{src(p)[:40]}` belongs to", file=rel, func=q)
-                        continue
-                    ok2 = cont == owners[n.id]
-                    chk.ob("A1-index-ownership", n, src(enclosing(n))[:110], ok2,
-                           f"`{n.id}` (axis of `{owners[n.id]}`) indexes a table of `{cont}`" +
-                           ("" if ok2 else " - the index was computed for the other layout"), file=rel, func=q)
+                    if isinstance(c, ast.Attribute) and isinstance(c.value, ast.Name):
+                        cont = c.value.id
+                    elif isinstance(c, ast.Name):
+                        cont = _list_owner(fn, c.id, n.lineno)
+                elif isinstance(p, ast.Call) and any(a is n for a in p.args) and isinstance(p.func, ast.Attribute) \
+                        and p.func.attr in ("mpi_starts", "mpi_lengths") and isinstance(p.func.value, ast.Name):
+                    cont = p.func.value.id
+                else:
+                    continue
+                if cont is None or cont not in (G, S):
+                    chk.ob("A1-index-ownership", n, src(enclosing(n))[:110], None,
+                           f"cannot identify the layout that `{src(p)[:40]}` belongs to", file=rel, func=q)
+                    continue
+                ok2 = cont == owners[n.id]
+                chk.ob("A1-index-ownership", n, src(enclosing(n))[:110], ok2,
+                       f"`{n.id}` (axis of `{owners[n.id]}`) indexes a table of `{cont}`" +
+                       ("" if ok2 else " - the index was computed for the other layout"), file=rel, func=q)
     return n_calls
 
 
@@ -203,203 +210,937 @@ def enclosing(n):
     return n
 
 
+# ------------------------------------------------------------------ symbolic reading of the gather / scatter arms
+# The statements of an arm are substituted forward into one another (no value is computed): every local becomes an expression over
+# the parameters (source, dest, buf, layout_source, layout_dest), the two axes returned by getAxes and the rank index of the
+# unpack loop.  The Allgather call and the array stores are then compared with the specification, whatever temporaries, slicing
+# idiom (np.split(x, [n])[0] / x[:n]) or loop form the code uses.
+class Unknown(Exception):
+    pass
+
+
+class Buf:
+    """elements [lo, hi) of the flat array `root` (a parameter)"""
+
+    def __init__(self, root, lo, hi):
+        self.root, self.lo, self.hi = root, lo, hi
+
+    def __repr__(self):
+        return f"{self.root}[{self.lo}:{self.hi}]"
+
+
+class Whole:
+    """a whole parameter array"""
+
+    def __init__(self, root):
+        self.root = root
+
+    def __repr__(self):
+        return self.root
+
+
+class Pieces:
+    """np.split(root, B*arange(1, m+1)): piece i is root[B*i : B*(i+1)] for i < m, plus the remainder"""
+
+    def __init__(self, root, B, m, drop_last=False):
+        self.root, self.B, self.m, self.drop_last = root, B, m, drop_last
+
+
+class SL:
+    """list(L.shape) / [slice(x) for x in L.shape] with overridden entries (position text -> value)"""
+
+    def __init__(self, layout, kind, over=None, wrapped=None):
+        self.layout, self.kind, self.over, self.wrapped = layout, kind, dict(over or {}), wrapped
+
+    def copy(self):
+        return SL(self.layout, self.kind, self.over, self.wrapped)
+
+    def key(self):
+        return (self.layout, self.kind, tuple(sorted((k, str(v)) for k, v in self.over.items())))
+
+    def __repr__(self):
+        o = ", ".join(f"[{k}]={v}" for k, v in sorted(self.over.items()))
+        return f"{'shape' if self.kind == 'shape' else 'slices'}({self.layout}{'; ' + o if o else ''})"
+
+
+class SliceV:
+    def __init__(self, lo, hi):
+        self.lo, self.hi = lo, hi
+
+    def __repr__(self):
+        return f"slice({self.lo}, {self.hi})"
+
+
+class View:
+    def __init__(self, buf, shape):
+        self.buf, self.shape = buf, shape
+
+    def __repr__(self):
+        return f"{self.buf}.reshape({self.shape})"
+
+
+class SubV:
+    def __init__(self, view, slices):
+        self.view, self.slices = view, slices
+
+    def __repr__(self):
+        return f"{self.view}[{self.slices}]"
+
+
+class Tr:
+    def __init__(self, x, perm):
+        self.x, self.perm = x, perm
+
+
+class Opaque:
+    def __init__(self, text):
+        self.text = text
+
+
+CARRIED = "<value of the previous iteration>"
+
+
+class SymArm:
+    def __init__(self, fn, arrays=("source", "dest", "buf")):
+        import sympy
+        self.sp = sympy
+        self.fn = fn
+        self.env = {a.arg: Whole(a.arg) for a in fn.args.args if a.arg in arrays}
+        self.literal = {a.arg for a in fn.args.args} | {"self", "np", "MPI"}
+        self.axes_calls = []      # (gathered arg, scattered arg, node)
+        self.gathers = []         # (call node, send spec, recv spec, comm text)
+        self.stores = []          # (stmt, target value, rhs value, loop info or None)
+        self.loop = None          # (trip count, node) while inside the unpack loop
+        self.conds = []           # `if` statements met inside the arm
+        self.notes = []
+
+    # -------------------------------------------------------------- scalars
+    def atom(self, text):
+        return self.sp.Symbol(text.replace(" ", ""), integer=True)
+
+    def ctext(self, e):
+        """source of e with the locals replaced by what they stand for"""
+        arm = self
+
+        class S(ast.NodeTransformer):
+            def visit_Name(self, node):
+                if node.id in arm.env:
+                    v = arm.env[node.id]
+                    if isinstance(v, arm.sp.Basic):
+                        t = str(v)
+                        try:
+                            new = ast.parse(t, mode="eval").body
+                        except SyntaxError:
+                            raise Unknown(f"`{node.id}`")
+                        return new
+                    if isinstance(v, Whole):
+                        return ast.Name(id=v.root, ctx=ast.Load())
+                    if isinstance(v, Opaque):
+                        return ast.parse(v.text, mode="eval").body
+                    raise Unknown(f"`{node.id}` is not a number or a name here")
+                if node.id in arm.literal or node.id in ("len", "range", "slice", "list", "tuple", "int", "max", "min"):
+                    return node
+                raise Unknown(f"name `{node.id}` has no single definition on this path")
+        new = S().visit(ast.parse(ast.unparse(e), mode="eval").body)
+        return ast.unparse(new)
+
+    def sval(self, e):
+        sp = self.sp
+        if isinstance(e, ast.Constant) and isinstance(e.value, int) and not isinstance(e.value, bool):
+            return sp.Integer(e.value)
+        if isinstance(e, ast.Name):
+            v = self.env.get(e.id)
+            if isinstance(v, sp.Basic):
+                return v
+            if v is None and e.id in self.literal:
+                return self.atom(e.id)
+            raise Unknown(f"`{e.id}` is not a number on this path")
+        if isinstance(e, ast.BinOp) and isinstance(e.op, (ast.Add, ast.Sub, ast.Mult)):
+            a, b = self.sval(e.left), self.sval(e.right)
+            return sp.expand(a + b if isinstance(e.op, ast.Add) else a - b if isinstance(e.op, ast.Sub) else a * b)
+        if isinstance(e, ast.UnaryOp) and isinstance(e.op, ast.USub):
+            return -self.sval(e.operand)
+        if isinstance(e, ast.Call) and src(e.func) in ("np.prod", "numpy.prod") and len(e.args) == 1:
+            L = self.val(e.args[0])
+            if isinstance(L, SL) and L.kind == "shape":
+                if any(v == CARRIED for v in L.over.values()):
+                    raise Unknown("a shape list entry set in the previous loop iteration")
+                return self.atom("prod(" + repr(L) + ")")
+            raise Unknown(f"`{src(e)[:40]}`")
+        if isinstance(e, ast.Attribute) and isinstance(e.value, ast.Name) and e.attr == "size" and isinstance(self.env.get(e.value.id), View):
+            raise Unknown(f"`{src(e)}`")
+        return self.atom(self.ctext(e))
+
+    # -------------------------------------------------------------- arrays, lists
+    def prefix(self, base, lo, hi):
+        """base[lo:hi] (indices relative to base; None = open end); clipping at the end of base is not modelled: the rules assume a
+        cut never exceeds the buffer it is taken from (true block <= padded block, P2-max-block)"""
+        sp = self.sp
+        lo = sp.Integer(0) if lo is None else lo
+        if isinstance(base, Whole):
+            return Buf(base.root, lo, hi)
+        if isinstance(base, Buf):
+            return Buf(base.root, sp.expand(base.lo + lo), sp.expand(base.lo + hi) if hi is not None else base.hi)
+        raise Unknown("slice of something that is not a flat buffer")
+
+    def val(self, e):
+        sp = self.sp
+        if isinstance(e, ast.Name):
+            if e.id in self.env:
+                v = self.env[e.id]
+                if v is CARRIED:
+                    raise Unknown(f"`{e.id}` is carried over from the previous loop iteration")
+                return v
+            raise Unknown(f"`{e.id}` has no single definition on this path")
+        if isinstance(e, ast.Attribute) and e.attr == "shape" and isinstance(e.value, ast.Name) and e.value.id in ("layout_source", "layout_dest"):
+            return SL(e.value.id, "shape")
+        if isinstance(e, ast.Call):
+            f = src(e.func)
+            if f in ("list", "tuple", "np.array") and len(e.args) == 1:
+                v = self.val(e.args[0])
+                if isinstance(v, SL):
+                    return v.copy()
+                raise Unknown(f"`{src(e)[:40]}`")
+            if f == "slice" and 1 <= len(e.args) <= 2:
+                lo = self.sval(e.args[0]) if len(e.args) == 2 else sp.Integer(0)
+                return SliceV(lo, self.sval(e.args[-1]))
+            if f in ("np.split", "numpy.split") and len(e.args) == 2 and all(k.arg == "axis" and src(k.value) == "0" for k in e.keywords):
+                base = self.val(e.args[0])
+                cut = e.args[1]
+                if isinstance(cut, ast.List) and len(cut.elts) == 1:
+                    return ("split1", base, self.sval(cut.elts[0]))
+                if isinstance(cut, ast.BinOp) and isinstance(cut.op, ast.Mult):
+                    for a, b in ((cut.left, cut.right), (cut.right, cut.left)):
+                        if isinstance(b, ast.Call) and src(b.func) in ("np.arange", "numpy.arange") and len(b.args) == 2 and src(b.args[0]) == "1":
+                            m1 = self.sval(b.args[1])
+                            return Pieces(base, self.sval(a), sp.expand(m1 - 1))
+                raise Unknown(f"`{src(e)[:50]}`")
+            if f in ("np.transpose", "numpy.transpose") and len(e.args) == 2:
+                return Tr(self.val(e.args[0]), self.perm(e.args[1]))
+            if isinstance(e.func, ast.Attribute) and e.func.attr == "transpose" and len(e.args) == 1:
+                return Tr(self.val(e.func.value), self.perm(e.args[0]))
+            if isinstance(e.func, ast.Attribute) and e.func.attr == "reshape" and len(e.args) == 1:
+                base = self.val(e.func.value)
+                shp = self.val(e.args[0])
+                if isinstance(base, (Buf, Whole)) and isinstance(shp, SL) and shp.kind == "shape":
+                    if any(v == CARRIED for v in shp.over.values()):
+                        raise Unknown("a shape list entry set in the previous loop iteration")
+                    return View(base, shp.copy())
+                raise Unknown(f"`{src(e)[:50]}`")
+            raise Unknown(f"`{src(e)[:50]}`")
+        if isinstance(e, ast.ListComp) and len(e.generators) == 1 and not e.generators[0].ifs and isinstance(e.generators[0].target, ast.Name):
+            g = e.generators[0]
+            t = g.target.id
+            if isinstance(e.elt, ast.Call) and src(e.elt.func) == "slice" and len(e.elt.args) == 1 and src(e.elt.args[0]) == t:
+                it = self.val(g.iter)
+                if isinstance(it, SL) and it.kind == "shape":
+                    out = SL(it.layout, "slices", {k: SliceV(sp.Integer(0), v) for k, v in it.over.items()})
+                    out.wrapped = it.copy() if it.over else None
+                    return out
+            raise Unknown(f"`{src(e)[:50]}`")
+        if isinstance(e, ast.Subscript):
+            sl = e.slice
+            if isinstance(sl, ast.Slice) and sl.step is None:
+                base = self.val(e.value)
+                if isinstance(base, View) and sl.lower is None and sl.upper is None:
+                    return base
+                lo = self.sval(sl.lower) if sl.lower is not None else None
+                hi = self.sval(sl.upper) if sl.upper is not None else None
+                if isinstance(base, Pieces) and lo is None and hi == -1:
+                    return Pieces(base.root, base.B, base.m, drop_last=True)
+                if isinstance(base, (Whole, Buf)):
+                    if lo is None and hi is None:
+                        return base
+                    return self.prefix(base, lo, hi)
+                raise Unknown(f"`{src(e)[:50]}`")
+            base = self.val(e.value)
+            if isinstance(base, tuple) and base[0] == "split1" and src(sl) == "0":
+                return self.prefix(base[1], None, base[2])
+            if isinstance(base, View):
+                inner = sl.args[0] if isinstance(sl, ast.Call) and src(sl.func) == "tuple" and len(sl.args) == 1 else sl
+                s_ = self.val(inner)
+                if isinstance(s_, SL) and s_.kind == "slices":
+                    if any(v == CARRIED for v in s_.over.values()):
+                        raise Unknown("a slice list entry set in the previous loop iteration")
+                    return SubV(base, s_.copy())
+            raise Unknown(f"`{src(e)[:50]}`")
+        raise Unknown(f"`{src(e)[:50]}`")
+
+    def perm(self, e):
+        from ..core import same_expr
+        x = e
+        if isinstance(e, ast.Name) and isinstance(self.env.get(e.id), Opaque):
+            x = ast.parse(self.env[e.id].text, mode="eval").body
+        if same_expr(x, "[layout_source.dims_order.index(i) for i in layout_dest.dims_order]", vars=("i",)):
+            return "source->dest"
+        return "other:" + src(x)[:60]
+
+    # -------------------------------------------------------------- statements
+    def run(self, stmts):
+        for st in stmts:
+            self.stmt(st)
+
+    def bind(self, name, e):
+        try:
+            if isinstance(e, ast.ListComp) and ".index(" in src(e):
+                self.env[name] = Opaque(self.ctext_comp(e))
+                return
+            try:
+                self.env[name] = self.val(e)
+            except Unknown:
+                self.env[name] = self.sval(e)
+        except Unknown:
+            self.env.pop(name, None)
+
+    def ctext_comp(self, e):
+        return ast.unparse(e)
+
+    def stmt(self, st):
+        sp = self.sp
+        if isinstance(st, ast.Expr) and isinstance(st.value, ast.Constant):
+            return
+        if isinstance(st, (ast.Assert, ast.Pass)):
+            return
+        if isinstance(st, ast.Assign) and len(st.targets) == 1:
+            t, v = st.targets[0], st.value
+            if isinstance(t, ast.Name):
+                self.bind(t.id, v)
+                return
+            if isinstance(t, ast.Tuple) and all(isinstance(x, ast.Name) for x in t.elts):
+                if isinstance(v, ast.Call) and isinstance(v.func, ast.Attribute) and v.func.attr == "getAxes" and len(v.args) == 2 and len(t.elts) == 2:
+                    g, s_ = src(v.args[0]), src(v.args[1])
+                    self.axes_calls.append((g, s_, st))
+                    names = {"layout_source": "idx_s", "layout_dest": "idx_d"}
+                    if {g, s_} == set(names):
+                        self.env[t.elts[0].id] = self.atom(names[g])
+                        self.env[t.elts[1].id] = self.atom(names[s_])
+                        self.axes_order = (g, s_)
+                        return
+                if isinstance(v, ast.Tuple) and len(v.elts) == len(t.elts):
+                    vals = []
+                    for x in v.elts:
+                        try:
+                            vals.append(self.val(x))
+                        except Unknown:
+                            try:
+                                vals.append(self.sval(x))
+                            except Unknown:
+                                vals.append(None)
+                    for x, w in zip(t.elts, vals):
+                        if w is None:
+                            self.env.pop(x.id, None)
+                        else:
+                            self.env[x.id] = w
+                    return
+                for x in t.elts:
+                    self.env.pop(x.id, None)
+                return
+            if isinstance(t, ast.Subscript) and isinstance(t.value, ast.Name) and isinstance(self.env.get(t.value.id), SL):
+                L = self.env[t.value.id]
+                try:
+                    k = str(self.sval(t.slice))
+                    try:
+                        w = self.val(v)
+                        if not isinstance(w, SliceV):
+                            raise Unknown("")
+                    except Unknown:
+                        w = self.sval(v)
+                    L.over[k] = w
+                except Unknown as u:
+                    self.env.pop(t.value.id, None)
+                    self.notes.append(f"`{src(st)[:60]}`: {u}")
+                return
+            if isinstance(t, ast.Subscript):
+                try:
+                    tv = self.val(t)
+                except Unknown as u:
+                    tv = None
+                    why_t = str(u)
+                try:
+                    rv = self.val(v)
+                except Unknown as u:
+                    rv = None
+                    why_r = str(u)
+                if tv is None and rv is None and not isinstance(self.env.get(getattr(t.value, "id", None)), (View, Whole, Buf)):
+                    return
+                self.stores.append((st, tv, rv, self.loop))
+                if tv is None:
+                    self.notes.append(f"target of `{src(st)[:60]}`: {why_t}")
+                if rv is None:
+                    self.notes.append(f"value of `{src(st)[:60]}`: {why_r}")
+                return
+            return
+        if isinstance(st, ast.Expr) and isinstance(st.value, ast.Call) and isinstance(st.value.func, ast.Attribute) \
+                and st.value.func.attr in ("Allgather", "Gather", "Allgatherv", "allgather", "gather"):
+            c = st.value
+            try:
+                comm = self.ctext(c.func.value)
+            except Unknown:
+                comm = None
+            specs = []
+            for a in c.args[:2]:
+                if isinstance(a, (ast.Tuple, ast.List)) and a.elts:
+                    try:
+                        b = self.val(a.elts[0])
+                    except Unknown as u:
+                        b = None
+                        self.notes.append(f"buffer `{src(a.elts[0])[:40]}` of the gather: {u}")
+                    specs.append((b, [src(x) for x in a.elts[1:]], a))
+                else:
+                    try:
+                        b = self.val(a)
+                    except Unknown:
+                        b = None
+                    specs.append((b, None, a))
+            self.gathers.append((c, specs, comm))
+            return
+        if isinstance(st, ast.For) and not st.orelse:
+            it = st.iter
+            trip = None
+            saved = None
+            try:
+                if isinstance(it, ast.Call) and src(it.func) == "enumerate" and len(it.args) == 1 and isinstance(st.target, ast.Tuple) \
+                        and len(st.target.elts) == 2 and all(isinstance(x, ast.Name) for x in st.target.elts):
+                    P = self.val(it.args[0])
+                    if isinstance(P, Pieces):
+                        i = self.atom("i")
+                        trip = P.m if P.drop_last else P.m + 1
+                        self.env[st.target.elts[0].id] = i
+                        self.env[st.target.elts[1].id] = self.prefix(P.root, sp.expand(P.B * i), sp.expand(P.B * i + P.B))
+                elif isinstance(it, ast.Call) and src(it.func) == "range" and len(it.args) == 1 and isinstance(st.target, ast.Name):
+                    trip = self.sval(it.args[0])
+                    self.env[st.target.id] = self.atom("i")
+            except Unknown:
+                trip = None
+            if trip is None:
+                self.havoc(st)
+                self.notes.append(f"loop `for {src(st.target)} in {src(st.iter)[:40]}` not recognised as a loop over the ranks")
+                return
+            # what the body rebinds is unknown at the top of an iteration until it is bound again
+            tgt_names = {x.id for x in ast.walk(st.target) if isinstance(x, ast.Name)}
+            for n in ast.walk(ast.Module(body=st.body, type_ignores=[])):
+                if isinstance(n, ast.Name) and isinstance(n.ctx, ast.Store) and n.id not in tgt_names and n.id in self.env:
+                    self.env[n.id] = CARRIED
+            for n in st.body:
+                for s_ in ast.walk(n):
+                    if isinstance(s_, ast.Assign) and isinstance(s_.targets[0], ast.Subscript) and isinstance(s_.targets[0].value, ast.Name) \
+                            and isinstance(self.env.get(s_.targets[0].value.id), SL):
+                        try:
+                            self.env[s_.targets[0].value.id].over[str(self.sval(s_.targets[0].slice))] = CARRIED
+                        except Unknown:
+                            self.env.pop(s_.targets[0].value.id, None)
+            outer = self.loop
+            self.loop = (trip, st)
+            self.run(st.body)
+            self.loop = outer
+            self.havoc(st, keep_lists=True)
+            return
+        if isinstance(st, ast.If):
+            self.conds.append(st)
+            self.havoc(st)
+            return
+        if isinstance(st, ast.Return):
+            return
+        self.havoc(st)
+
+    def havoc(self, st, keep_lists=False):
+        for n in ast.walk(st):
+            if isinstance(n, ast.Name) and isinstance(n.ctx, ast.Store):
+                self.env.pop(n.id, None)
+            if not keep_lists and isinstance(n, ast.Subscript) and isinstance(n.ctx, ast.Store) and isinstance(n.value, ast.Name):
+                if isinstance(self.env.get(n.value.id), SL):
+                    self.env.pop(n.value.id, None)
+
+
+def arm_of(fn, node):
+    """(statements before the arm on the path from the function entry, the arm's statements): the arm is the innermost
+    block containing `node`"""
+    path = []
+    st = node
+    while not isinstance(st, ast.stmt):
+        st = parent(st)
+    chain = []
+    cur = st
+    while cur is not fn and cur is not None:
+        par = parent(cur)
+        blk = None
+        for f in ("body", "orelse", "finalbody"):
+            b = getattr(par, f, None)
+            if isinstance(b, list) and any(x is cur for x in b):
+                blk = b
+        if blk is None:
+            return None
+        chain.append((blk, cur))
+        cur = par
+    chain.reverse()
+    # innermost block that is not a loop body
+    k = len(chain) - 1
+    while k > 0 and isinstance(parent(chain[k][1]), (ast.For, ast.While)):
+        k -= 1
+    prefix = []
+    for blk, stmt_on_path in chain[:k]:
+        for x in blk:
+            if x is stmt_on_path:
+                break
+            prefix.append(x)
+    return prefix, chain[k][0]
+
+
 # ------------------------------------------------------------------ gather geometry
-GATHER_TEMPLATE = """
-idx_d, idx_s = self.getAxes(layout_dest, layout_source)
-comm = self._managers[self._handlers[layout_source.name]].communicators[idx_s]
-mpi_size = comm.Get_size()
-blockShape = list(layout_source.shape)
-blockShape[idx_s] = layout_source.max_block_shape[idx_s]
-blockSize = np.prod(blockShape)
-sourceView = np.split(source, [blockSize])[0]
-destView = np.split({recv}, [blockSize * mpi_size])[0]
-comm.Allgather((sourceView, MPI.DOUBLE), (destView, MPI.DOUBLE))
-blocks = np.split({recv}, blockSize * np.arange(1, mpi_size + 1))
-destView = np.split({out}, [layout_dest.size])[0].reshape(layout_dest.shape)
-slices = [slice(x) for x in layout_dest.shape]
-transposition = [layout_source.dims_order.index(i) for i in layout_dest.dims_order]
-for i, b in enumerate(blocks[:-1]):
-    blockShape = list(layout_source.shape)
-    blockShape[idx_s] = layout_source.mpi_lengths(idx_s)[i]
-    blockSize = np.prod(blockShape)
-    slices[idx_d] = slice(layout_source.mpi_starts(idx_s)[i], layout_source.mpi_starts(idx_s)[i] + layout_source.mpi_lengths(idx_s)[i])
-    block = np.split(b, [blockSize])[0].reshape(blockShape)
-    destView[tuple(slices)] = np.transpose(block, transposition)
-"""
+def _read_arm(fn, node):
+    """SymArm after the statements on the path to, and of, the arm that contains `node`"""
+    r = arm_of(fn, node)
+    if r is None:
+        return None
+    prefix, arm = r
+    A = SymArm(fn)
+    A.run(prefix)
+    A.conds, A.notes, A.stores, A.gathers = [], [], [], []
+    A.run(arm)
+    return A
+
+
+def _eq(a, b):
+    import sympy
+    try:
+        return sympy.expand(a - b) == 0
+    except Exception:
+        return False
 
 
 def gather_geometry(chk, mod, q, recv_name):
-    """Allgather of padded blocks; unpack with the sender's true block shape (template with metavariables)."""
-    from ..core import find
+    """Allgather of padded blocks; unpack with the sender's true block shape (symbolic reading of the gather arm)."""
+    import sympy
     rel = mod.rel
-    fn = mod.func(q)
-    ag = [c for c in ast.walk(fn) if isinstance(c, ast.Call) and isinstance(c.func, ast.Attribute)
-          and c.func.attr in ("Allgather", "Gather", "Allgatherv", "allgather", "gather")]
-    if len(ag) != 1:
-        raise AnalysisError(f"C03: expected exactly one gather collective in {q}, found {len(ag)}")
-    c = ag[0]
-    chk.ob("R1-symmetric-replication", c, src(c)[:100], c.func.attr == "Allgather",
-           "the gather is an Allgather: every rank of the communicator receives all blocks (replicas identical)"
-           if c.func.attr == "Allgather" else f"`{c.func.attr}` does not deliver the blocks to every rank", file=rel, func=q)
-    out = "source" if recv_name == "dest" else "dest"
-    tmpl = GATHER_TEMPLATE.format(recv=recv_name, out=out)
-    bind = find(fn, tmpl, vars=("x",))
-    ok = bind is not None
+    fn = view_of(chk, mod, q)
+    rule = "G4-gather-geometry"
     what = ("every rank sends one block padded to max_block_shape along the scattered axis and receives communicator-size such "
             "blocks (uniform counts); the chunk of rank i is cut to and viewed with the sender's true block shape "
             "(mpi_lengths(idx_s)[i]) and placed at [start_i, start_i+len_i) of the source partition along the gathered axis")
-    bad = None
-    if not ok:
-        # recognised wrong forms
-        arm = parent(enclosing(c))
-        body = arm.orelse if enclosing(c) in getattr(arm, "orelse", []) else arm.body
-        loops = [n for n in body if isinstance(n, ast.For)]
-        for lp in loops:
-            for n in ast.walk(lp):
-                if isinstance(n, ast.Call) and isinstance(n.func, ast.Attribute) and n.func.attr == "reshape" and n.args \
-                        and isinstance(n.args[0], ast.Name):
-                    shp = n.args[0].id
-                    inloop = [a_ for a_ in ast.walk(lp) if isinstance(a_, ast.Assign) and isinstance(a_.targets[0], ast.Subscript)
-                              and src(a_.targets[0].value) == shp]
-                    outer = [a_ for a_ in body if isinstance(a_, ast.Assign) and isinstance(a_.targets[0], ast.Subscript)
-                             and src(a_.targets[0].value) == shp and "max_block_shape" in src(a_.value)]
-                    if not inloop and outer:
-                        bad = (f"the received chunk of rank i is viewed with the padded block shape `{shp}` ({src(outer[0])}); the sender's "
-                               "block is contiguous in its true shape, so for uneven blocks elements are mis-assigned unless the gathered "
-                               "axis is the leading one")
-            for n in ast.walk(lp):
-                if isinstance(n, ast.Call) and isinstance(n.func, ast.Attribute) and n.func.attr in ("mpi_lengths", "mpi_starts") \
-                        and src(n.func.value) == "layout_dest":
-                    bad = f"the unpack loop uses `{src(n)}`: blocks were cut by the source layout's partition, not the destination's"
-        # a shortcut taken when THIS rank's block is unpadded: the other ranks' blocks may still be padded
-        for n in ast.walk(fn):
-            if isinstance(n, ast.If) and any(isinstance(x, ast.Compare) and "max_block_shape" in src(x) and ".shape" in src(x)
-                                             for x in ast.walk(n.test)) and any(c is x or True for x in [c]):
-                cmp_ = [x for x in ast.walk(n.test) if isinstance(x, ast.Compare) and "max_block_shape" in src(x)][0]
-                bad = (f"`{src(cmp_)}` compares this rank's own block length with the padded length to decide how the gathered buffer is "
-                       "read: on an uneven distribution the ranks holding a full-size block take the 'no padding' path although the shorter "
-                       "blocks of the other ranks arrive padded - the padding is read as data, and the ranks disagree on the result")
-        # explicit element counts with MPI.DOUBLE: the count is in doubles, complex data has two per element
-        for spec in list(c.args):
-            if isinstance(spec, (ast.List, ast.Tuple)) and len(spec.elts) == 3 and src(spec.elts[2]) == "MPI.DOUBLE":
-                bad = (f"`{src(spec)}` passes an explicit count with MPI.DOUBLE: the count is the number of array ELEMENTS, but a complex "
+    ag = [c for c in ast.walk(fn) if isinstance(c, ast.Call) and isinstance(c.func, ast.Attribute)
+          and c.func.attr in ("Allgather", "Gather", "Allgatherv", "allgather", "gather")]
+    if len(ag) != 1:
+        chk.ob(rule, fn, f"gather arm of {q.split('.')[-1]}", None, f"expected exactly one gather collective in {q}, found {len(ag)}", file=rel, func=q)
+        return
+    c = ag[0]
+    okr = True if c.func.attr == "Allgather" else False if c.func.attr in ("Gather", "gather") else None
+    chk.ob("R1-symmetric-replication", c, src(c)[:100], okr,
+           "the gather is an Allgather: every rank of the communicator receives all blocks (replicas identical)"
+           if okr else f"`{c.func.attr}` delivers the blocks to the root rank only: the other replicas keep stale data" if okr is False
+           else f"collective `{c.func.attr}` not modelled", file=rel, func=q)
+    out = "source" if recv_name == "dest" else "dest"
+    A = _read_arm(fn, c)
+    if A is None or len(A.gathers) != 1:
+        chk.ob(rule, c, f"gather arm of {q.split('.')[-1]}", None, "the arm containing the gather could not be isolated", file=rel, func=q)
+        return
+    bad, und = [], []
+    at = A.atom
+    # ---- the specification, in the vocabulary of the arm
+    if getattr(A, "axes_order", None) != ("layout_dest", "layout_source"):
+        und.append("the gather arm does not obtain its axes as `(idx_d, idx_s) = self.getAxes(layout_dest, layout_source)`")
+    idx_s, idx_d = at("idx_s"), at("idx_d")
+    comm_t = "self._managers[self._handlers[layout_source.name]].communicators[idx_s]"
+    m = at(comm_t + ".Get_size()")
+    pad = SL("layout_source", "shape", {"idx_s": at("layout_source.max_block_shape[idx_s]")})
+    B = at("prod(" + repr(pad) + ")")
+    len_i, st_i = at("layout_source.mpi_lengths(idx_s)[i]"), at("layout_source.mpi_starts(idx_s)[i]")
+    true_shape = SL("layout_source", "shape", {"idx_s": len_i})
+    n_i = at("prod(" + repr(true_shape) + ")")
+    call, specs, comm = A.gathers[0]
+    # ---- communicator
+    if comm is None:
+        und.append("communicator of the gather")
+    elif comm.replace(" ", "") != comm_t.replace(" ", ""):
+        if comm.replace(" ", "") == comm_t.replace("idx_s", "idx_d").replace(" ", "") or "layout_dest.name" in comm:
+            bad.append(f"the gather runs on `{comm}`: the blocks are spread over the communicator of the SOURCE handler's scattered axis (idx_s)")
+        else:
+            und.append(f"communicator `{comm}`")
+    # ---- counts
+    for k, (role, root, want_hi) in enumerate((("send", "source", B), ("receive", recv_name, sympy.expand(B * m)))):
+        if k >= len(specs):
+            und.append(f"{role} buffer")
+            continue
+        b, extra, node = specs[k]
+        if extra is not None and len(extra) >= 2 and extra[-1] == "MPI.DOUBLE":
+            bad.append(f"`{src(node)}` passes an explicit count with MPI.DOUBLE: the count is the number of array ELEMENTS, but a complex "
                        "buffer holds two doubles per element, so only half of each block is exchanged (the two-element form lets mpi4py "
                        "derive the count from the buffer's size in bytes)")
-    chk.pat("G4-gather-geometry", c, f"gather arm of {q.split('.')[-1]}", ok, what, bad, file=rel, func=q)
-
-
-SCATTER_TEMPLATE = """
-idx_s, idx_d = self.getAxes(layout_source, layout_dest)
-comm = self._managers[self._handlers[layout_dest.name]].communicators[idx_d]
-rank = comm.Get_rank()
-start = layout_dest.mpi_starts(idx_d)[rank]
-length = layout_dest.mpi_lengths(idx_d)[rank]
-sourceSlice = [slice(n) for n in layout_source.shape]
-sourceSlice[idx_s] = slice(start, start + length)
-transposition = [layout_source.dims_order.index(i) for i in layout_dest.dims_order]
-destView[:] = np.transpose(sourceView[tuple(sourceSlice)], transposition)
-"""
+            continue
+        if extra is not None and extra != ["MPI.DOUBLE"]:
+            und.append(f"{role} buffer specification `{src(node)[:50]}`")
+        if not isinstance(b, Buf):
+            und.append(f"{role} buffer `{src(node)[:50]}`")
+            continue
+        if b.root != root:
+            if b.root in ("source", "dest", "buf"):
+                bad.append(f"the {role} buffer is a part of `{b.root}`, the arm's {role} buffer is `{root}`")
+            else:
+                und.append(f"{role} buffer root `{b.root}`")
+            continue
+        if not (_eq(b.lo, 0) and b.hi is not None and _eq(b.hi, want_hi)):
+            t = str(b.hi)
+            if b.hi is not None and _eq(b.lo, 0) and ("prod(shape(layout_source)" in t or "layout_source.size" in t or "layout_dest.size" in t
+                                                      or "mpi_lengths" in t) and "max_block_shape" not in t:
+                bad.append(f"the {role} buffer holds `{b.hi}` elements: Allgather needs the same count from every rank, the block padded to "
+                           f"max_block_shape along the scattered axis ({want_hi}); with unpadded counts the ranks disagree on the layout of the receive buffer")
+            else:
+                und.append(f"{role} count `{b.hi}` (expected {want_hi})")
+    # ---- shortcuts decided by this rank's own block
+    for cnd in A.conds:
+        cmp_ = [x for x in ast.walk(cnd.test) if isinstance(x, ast.Compare) and "max_block_shape" in src(x) and
+                (".shape" in src(x) or "mpi_lengths" in src(x))]
+        if cmp_:
+            bad.append(f"`{src(cmp_[0])}` compares this rank's own block length with the padded length to decide how the gathered buffer is "
+                       "read: on an uneven distribution the ranks holding a full-size block take the 'no padding' path although the shorter "
+                       "blocks of the other ranks arrive padded - the padding is read as data, and the ranks disagree on the result")
+        else:
+            und.append(f"branch `if {src(cnd.test)[:50]}` inside the gather arm")
+    # ---- the unpack loop
+    loop_stores = [s_ for s_ in A.stores if s_[3] is not None]
+    if len(loop_stores) != 1:
+        if not any("compares this rank's own block" in b_ for b_ in bad):
+            und.append(f"{len(loop_stores)} array stores in the unpack loop (1 expected)" + ("; " + "; ".join(A.notes[:3]) if A.notes else ""))
+    else:
+        st, tv, rv, (trip, loop_node) = loop_stores[0]
+        if not _eq(trip, m):
+            if _eq(trip, m + 1):
+                bad.append("the unpack loop also visits the piece after the last rank's block (np.split returns communicator-size + 1 pieces): "
+                           "it is not a block of any rank")
+            elif _eq(trip, m - 1):
+                bad.append("the unpack loop visits communicator-size - 1 blocks: the last rank's block is never copied")
+            else:
+                und.append(f"trip count `{trip}` of the unpack loop (expected {m})")
+        # target: result[0:layout_dest.size].reshape(layout_dest.shape)[..., idx_d: start_i .. start_i+len_i, ...]
+        if isinstance(tv, SubV) and isinstance(tv.view, View) and isinstance(tv.view.buf, Buf):
+            vb = tv.view
+            if vb.buf.root != out:
+                (bad if vb.buf.root in ("source", "dest", "buf") else und).append(
+                    f"the blocks are assembled in `{vb.buf.root}`; with the receive buffer `{recv_name}` the result must be built in `{out}`")
+            if not (_eq(vb.buf.lo, 0) and vb.buf.hi is not None and _eq(vb.buf.hi, at("layout_dest.size")) and vb.shape.key() == SL("layout_dest", "shape").key()):
+                und.append(f"result view `{vb}`")
+            sl = tv.slices
+            if sl.layout != "layout_dest" or set(sl.over) != {"idx_d"} or not isinstance(sl.over.get("idx_d"), SliceV):
+                if sl.layout == "layout_dest" and set(sl.over) == {"idx_s"}:
+                    bad.append("the block of rank i is placed along position idx_s of the destination view: idx_s is the process axis of the SOURCE "
+                               "handler, the gathered dimension sits at position idx_d of the destination")
+                else:
+                    und.append(f"placement `{sl}`")
+            else:
+                sv = sl.over["idx_d"]
+                if _eq(sv.lo, st_i) and _eq(sv.hi, st_i + len_i):
+                    pass
+                elif "layout_dest.mpi_" in str(sv.lo) + str(sv.hi):
+                    bad.append(f"the block of rank i is placed at `{sv}`: blocks were cut by the source layout's partition, not the destination's "
+                               "(the destination is not distributed along this dimension)")
+                else:
+                    und.append(f"placement range `{sv}`")
+        else:
+            und.append("target of the store in the unpack loop" + ("; " + "; ".join(A.notes[:2]) if A.notes else ""))
+        # value: np.transpose(chunk_i viewed with the sender's true shape, source->dest)
+        if isinstance(rv, Tr):
+            if rv.perm != "source->dest":
+                und.append(f"transposition `{rv.perm}`")
+            x = rv.x
+            sub = None
+            if isinstance(x, SubV):
+                x, sub = x.view, x.slices
+            if isinstance(x, View) and isinstance(x.buf, Buf):
+                shp = x.shape
+                padded_view = shp.layout == "layout_source" and set(shp.over) == {"idx_s"} and _eq(shp.over["idx_s"], at("layout_source.max_block_shape[idx_s]"))
+                if padded_view:
+                    bad.append(f"the received chunk of rank i is viewed with the padded block shape `{shp}`; the sender's "
+                               "block is contiguous in its true shape, so for uneven blocks elements are mis-assigned unless the gathered "
+                               "axis is the leading one")
+                elif sub is not None:
+                    und.append(f"chunk view `{x}` cut by `{sub}`")
+                elif shp.key() != true_shape.key():
+                    if shp.layout == "layout_dest" or any("layout_dest.mpi_" in str(v) for v in shp.over.values()):
+                        bad.append(f"the chunk of rank i is viewed with `{shp}`: blocks were cut by the source layout's partition, not the destination's")
+                    else:
+                        und.append(f"chunk shape `{shp}`")
+                b = x.buf
+                if b.root != recv_name:
+                    (bad if b.root in ("source", "dest", "buf") else und).append(f"the chunks are read from `{b.root}` but were received in `{recv_name}`")
+                elif not _eq(b.lo, B * at("i")):
+                    if "mpi_starts" in str(b.lo) or "mpi_lengths" in str(b.lo) or _eq(b.lo, n_i * at("i")):
+                        bad.append(f"the chunk of rank i is read at offset `{b.lo}`: every rank's block occupies a slot of the padded size {B} in the "
+                                   "receive buffer, so for uneven blocks the chunks are read from the wrong offsets")
+                    else:
+                        und.append(f"chunk offset `{b.lo}` (expected {B}*i)")
+                elif not padded_view and (b.hi is None or not _eq(b.hi, B * at("i") + n_i)):
+                    und.append(f"chunk extent `{b}`")
+            else:
+                und.append("value stored in the unpack loop" + ("; " + "; ".join(A.notes[:2]) if A.notes else ""))
+        else:
+            und.append("value stored in the unpack loop" + ("; " + "; ".join(A.notes[:2]) if A.notes else ""))
+    ok = not bad and not und
+    o = chk.pat(rule, c, f"gather arm of {q.split('.')[-1]}", ok, what, "; ".join(dict.fromkeys(bad)) or None, file=rel, func=q)
+    if not ok and not bad:
+        o.msg = "the gather arm could not be read completely: " + "; ".join(dict.fromkeys(und))[:600]
 
 
 def scatter_geometry(chk, mod, q):
-    from ..core import find
     rel = mod.rel
-    fn = mod.func(q)
-    b = find(fn, SCATTER_TEMPLATE, vars=("n", "sourceView", "destView"))
-    bad = None
-    if b is None:
-        for n in ast.walk(fn):
-            if isinstance(n, ast.Call) and isinstance(n.func, ast.Attribute) and n.func.attr == "Get_rank":
-                arm = enclosing(n)
-                blk = parent(arm)
-                body = blk.body if arm in getattr(blk, "body", []) else getattr(blk, "orelse", [])
-                txt = "".join(src(x) for x in body)
-                if "layout_source.mpi_starts" in txt or "layout_source.mpi_lengths" in txt:
-                    bad = "the scatter slice is taken from the source layout's partition table: the local block is defined by the destination's"
-    chk.pat("G4-scatter-slice", fn, "scatter arm of " + q.split(".")[-1], b is not None,
-            "the local slice is [start_r, start_r+len_r) of the destination partition, for this rank's coordinate on the "
-            "destination communicator, taken along the source axis of the scattered dimension", bad, file=rel, func=q)
+    fn = view_of(chk, mod, q)
+    rule = "G4-scatter-slice"
+    what = ("the local slice is [start_r, start_r+len_r) of the destination partition, for this rank's coordinate on the "
+            "destination communicator, taken along the source axis of the scattered dimension")
+    calls = [c for c in ast.walk(fn) if isinstance(c, ast.Call) and isinstance(c.func, ast.Attribute) and c.func.attr == "getAxes"
+             and [src(a) for a in c.args] == ["layout_source", "layout_dest"]]
+    if len(calls) != 1:
+        chk.ob(rule, fn, "scatter arm of " + q.split(".")[-1], None,
+               f"{len(calls)} calls `self.getAxes(layout_source, layout_dest)` found in {q} (1 expected): the scatter arm could not be isolated",
+               file=rel, func=q)
+        return
+    A = _read_arm(fn, calls[0])
+    bad, und = [], []
+    if A is None:
+        chk.ob(rule, fn, "scatter arm of " + q.split(".")[-1], None, "the scatter arm could not be isolated", file=rel, func=q)
+        return
+    at = A.atom
+    comm_t = "self._managers[self._handlers[layout_dest.name]].communicators[idx_d]"
+    rank = at(comm_t + ".Get_rank()")
+    st_r, len_r = at(f"layout_dest.mpi_starts(idx_d)[{rank}]"), at(f"layout_dest.mpi_lengths(idx_d)[{rank}]")
+    stores = [s_ for s_ in A.stores if s_[3] is None]
+    for cnd in A.conds:
+        und.append(f"branch `if {src(cnd.test)[:50]}` inside the scatter arm")
+    if len(stores) != 1:
+        und.append(f"{len(stores)} array stores in the scatter arm (1 expected)" + ("; " + "; ".join(A.notes[:3]) if A.notes else ""))
+    else:
+        st, tv, rv, _ = stores[0]
+        if isinstance(tv, View) and isinstance(tv.buf, Buf) and tv.buf.root in ("source", "buf"):
+            bad.append(f"the scatter arm writes its result into `{tv.buf.root}`: the local part of the destination layout must be stored in `dest`")
+        elif not (isinstance(tv, View) and isinstance(tv.buf, Buf) and tv.buf.root == "dest" and _eq(tv.buf.lo, 0) and tv.buf.hi is not None
+                  and _eq(tv.buf.hi, at("layout_dest.size")) and tv.shape.key() == SL("layout_dest", "shape").key()):
+            und.append(f"destination view `{tv}`")
+        if isinstance(rv, Tr) and isinstance(rv.x, SubV) and isinstance(rv.x.view, View) and isinstance(rv.x.view.buf, Buf):
+            if rv.perm != "source->dest":
+                und.append(f"transposition `{rv.perm}`")
+            v, sl = rv.x.view, rv.x.slices
+            if v.buf.root in ("dest", "buf"):
+                bad.append(f"the scatter arm reads the replicated block from `{v.buf.root}`: the field is in `source`")
+            elif not (v.buf.root == "source" and _eq(v.buf.lo, 0) and v.buf.hi is not None and _eq(v.buf.hi, at("layout_source.size"))
+                      and v.shape.key() == SL("layout_source", "shape").key()):
+                und.append(f"source view `{v}`")
+            if sl.layout != "layout_source" or set(sl.over) != {"idx_s"} or not isinstance(sl.over.get("idx_s"), SliceV):
+                if sl.layout == "layout_source" and set(sl.over) == {"idx_d"}:
+                    bad.append("the local part is cut along position idx_d of the source view: idx_d is the process axis of the DESTINATION handler, "
+                               "the dimension that becomes distributed sits at position idx_s of the source")
+                else:
+                    und.append(f"slice list `{sl}`")
+            else:
+                sv = sl.over["idx_s"]
+                txt = str(sv.lo) + " " + str(sv.hi)
+                if _eq(sv.lo, st_r) and _eq(sv.hi, st_r + len_r):
+                    pass
+                elif "layout_source.mpi_starts" in txt or "layout_source.mpi_lengths" in txt:
+                    bad.append("the scatter slice is taken from the source layout's partition table: the local block is defined by the destination's")
+                elif "layout_dest.mpi_starts(idx_d)[" in txt and ".Get_rank()" in txt and comm_t.replace(" ", "") not in txt:
+                    bad.append(f"the slice `{sv}` is taken at the rank of another communicator than the destination handler's communicators[idx_d]: "
+                               "the table along idx_d is indexed by the coordinate on that communicator")
+                else:
+                    und.append(f"slice `{sv}` (expected slice({st_r}, {st_r} + {len_r}))")
+        else:
+            und.append("value stored by the scatter arm" + ("; " + "; ".join(A.notes[:3]) if A.notes else ""))
+    ok = not bad and not und
+    o = chk.pat(rule, calls[0], "scatter arm of " + q.split(".")[-1], ok, what, "; ".join(dict.fromkeys(bad)) or None, file=rel, func=q)
+    if not ok and not bad:
+        o.msg = "the scatter arm could not be read completely: " + "; ".join(dict.fromkeys(und))[:600]
 
 
-INIT_GATHER_TEMPLATE = """
-blockShape1 = list(l1.shape)
-blockShape1[idx_1] = l1.max_block_shape[idx_1]
-blockSize1 = np.prod(blockShape1)
-blockShape2 = list(l2.shape)
-blockShape2[idx_2] = l2.max_block_shape[idx_2]
-blockSize2 = np.prod(blockShape2)
-if blockSize1 > blockSize2:
-    comm = h2.communicators[idx_2]
-    mpi_size = comm.Get_size()
-    self._buffer_size = max(self._buffer_size, blockSize2 * mpi_size)
-else:
-    comm = h1.communicators[idx_1]
-    mpi_size = comm.Get_size()
-    self._buffer_size = max(self._buffer_size, blockSize1 * mpi_size)
-"""
-
-
-HANDLER_BUFFER_TEMPLATE = """
-blockshape = list(l1.shape)
-axis = self._get_swap_axes(l1, l2)
-if len(axis) != 0:
-    blockshape[axis[0]] = l1.max_block_shape[axis[0]]
-    blockshape[axis[1]] = l2.max_block_shape[axis[0]]
-"""
-
-
+# ------------------------------------------------------------------ buffer sizes
 def handler_buffer(chk, mod):
     """LayoutHandler.__init__: the block of every connected pair starts from that pair's own local shape"""
-    from ..core import find
+    from .C01 import bufsize_rules
     rel, q = mod.rel, "LayoutHandler.__init__"
     fn = mod.func(q)
-    b = find(fn, HANDLER_BUFFER_TEMPLATE, vars=("l1", "l2"))
-    bad = None
-    if b is None:
-        calls = [n for n in ast.walk(fn) if isinstance(n, ast.Call) and src(n.func) == "self._get_swap_axes"]
-        if calls:
-            def loops(n):
-                out = []
-                while n is not fn:
-                    n = parent(n)
-                    if isinstance(n, (ast.For, ast.While)):
-                        out.append(n)
-                return out
-            inner = loops(calls[0])
-            tgt = None
-            for n in ast.walk(fn):
-                if isinstance(n, ast.Assign) and isinstance(n.targets[0], ast.Subscript) and isinstance(n.targets[0].value, ast.Name) \
-                        and "max_block_shape" in src(n.value):
-                    tgt = n.targets[0].value.id
-            if tgt:
-                init = [n for n in ast.walk(fn) if isinstance(n, ast.Assign) and src(n.targets[0]) == tgt]
-                if init and len(loops(init[0])) < len(inner):
-                    bad = (f"`{src(init[0])}` (line {init[0].lineno}) is created outside the loop over connected layouts but its entries are "
-                           "overwritten for every pair: a layout connected to two others through different axes keeps the padded extent "
-                           "of the previous pair, and bufferSize can come out smaller than a block the transposes move")
-    chk.pat("G4-bufsize-handler-block", fn, "blockshape = list(l1.shape) per connected pair, then the two swapped extents padded", b is not None,
-            "for every connected pair the exchange block is this pair's local shape with the concatenated and the split axis padded to "
-            "the largest block; the advertised size is the maximum over pairs", bad, file=rel, func=q)
-    ok = contains(fn, "if buffsize > self._buffer_size:\n    self._buffer_size = buffsize", vars=("buffsize",)) is not None and \
-        contains(fn, "self._buffer_size = X.size", vars=("X",)) is not None
-    chk.pat("G4-bufsize-handler-block", fn, "self._buffer_size = max(first layout's size, every pair's block)", ok,
-            "the advertised size starts from a local block and only grows", file=rel, func=q)
+    rule = "G4-bufsize-handler-block"
+
+    def loops(n):
+        out = []
+        while n is not fn and n is not None:
+            n = parent(n)
+            if isinstance(n, (ast.For, ast.While)):
+                out.append(n)
+        return out
+    calls = [n for n in ast.walk(fn) if isinstance(n, ast.Call) and src(n.func) == "self._get_swap_axes"]
+    pads = [n for n in ast.walk(fn) if isinstance(n, ast.Assign) and isinstance(n.targets[0], ast.Subscript)
+            and isinstance(n.targets[0].value, ast.Name) and "max_block_shape" in src(n.value)]
+    ok, bad = None, None
+    if calls and pads:
+        tgt = pads[0].targets[0].value.id
+        inits = [n for n in ast.walk(fn) if isinstance(n, ast.Assign) and len(n.targets) == 1 and src(n.targets[0]) == tgt]
+        pair_loops = loops(calls[0])
+        if len(inits) == 1 and isinstance(inits[0].value, ast.Call) and src(inits[0].value.func) == "list" and len(inits[0].value.args) == 1 \
+                and isinstance(inits[0].value.args[0], ast.Attribute) and inits[0].value.args[0].attr == "shape":
+            if len(loops(inits[0])) == len(pair_loops) and all(len(loops(p_)) == len(pair_loops) for p_ in pads) and len(pair_loops) >= 2:
+                ok = True
+            elif len(loops(inits[0])) < len(pair_loops):
+                bad = (f"`{src(inits[0])}` (line {inits[0].lineno}) is created outside the loop over connected layouts but its entries are "
+                       "overwritten for every pair: a layout connected to two others through different axes keeps the padded extent "
+                       "of the previous pair, and bufferSize can come out smaller than a block the transposes move")
+    chk.pat(rule, fn, "blockshape = list(l1.shape) per connected pair, then the two swapped extents padded", ok,
+            "for every connected pair the exchange block is built from a fresh copy of this pair's local shape, its concatenated and split "
+            "axes padded to the largest block (the extents themselves are compared with the packer's by G1-geometry-bufsize)", bad, file=rel, func=q)
+    bufsize_rules(chk, mod)
 
 
 def init_buffer(chk, mod):
     """advertised size covers every handler's size and every gather's receive size"""
-    from ..core import find
+    import sympy
     rel = mod.rel
     handler_buffer(chk, mod)
     q = "LayoutSwapper.__init__"
     fn = mod.func(q)
-    ok1 = contains(fn, "buffSize = [x.bufferSize for x in self._managers]\nself._buffer_size = max(buffSize)", vars=("x",))
-    chk.pat("G4-bufsize-handlers", fn, "self._buffer_size = max(buffSize)", ok1, "swapper buffer covers the largest handler buffer",
-            file=rel, func=q)
-    ok2 = find(fn, INIT_GATHER_TEMPLATE, vars=("l1", "l2", "h1", "h2", "idx_1", "idx_2")) is not None
-    chk.pat("G4-bufsize-gather", fn, "gather receive size in __init__", ok2,
-            "buffer covers (padded scattered block) x (size of the scattered side's communicator) for every gather pair",
-            file=rel, func=q)
+    env = inline_locals(fn)
+    # ---- covers the largest handler buffer
+    stores = [n for n in ast.walk(fn) if isinstance(n, ast.Assign) and any(src(t) == "self._buffer_size" for t in n.targets)]
+    ok1, bad1 = None, None
+
+    def in_loop(n):
+        p = parent(n)
+        while p is not None and p is not fn:
+            if isinstance(p, (ast.For, ast.While)):
+                return True
+            p = parent(p)
+        return False
+    first = [n for n in stores if not in_loop(n)]
+    if first:
+        t = xsrc(first[0].value, env).replace(" ", "").replace("((", "(").replace("))", ")")
+        import re
+        if re.fullmatch(r"max\(\[?(\w+)\.bufferSizefor\1inself\._managers\]?\)", t):
+            ok1 = True
+        elif re.fullmatch(r"min\(\[?(\w+)\.bufferSizefor\1inself\._managers\]?\)", t):
+            bad1 = "the swapper's buffer is the SMALLEST handler buffer: the transposes inside the other handlers need more"
+        elif re.fullmatch(r"self\._managers\[[^\]]+\]\.bufferSize", t):
+            bad1 = (f"the swapper's buffer starts from one handler's size (`{src(first[0].value)}`): the transposes inside the other handlers may need more")
+    chk.pat("G4-bufsize-handlers", first[0] if first else fn, "self._buffer_size = max(buffSize)", ok1, "swapper buffer covers the largest handler buffer",
+            bad1, file=rel, func=q)
+    # ---- covers (padded scattered block) x (size of the scattered side's communicator) for every gather pair
+    _gather_bufsize(chk, mod, fn, [n for n in stores if in_loop(n)])
+
+
+def _gather_candidate(vx, sf, idx_of, handler_of, bad, und, counts):
+    """one value the swapper's buffer size is raised to: (block of L padded along idx) x (size of L's handler's communicators[idx])"""
+    factors = []
+    todo = [vx]
+    while todo:
+        x = todo.pop()
+        if isinstance(x, ast.BinOp) and isinstance(x.op, ast.Mult):
+            todo += [x.left, x.right]
+        else:
+            factors.append(x)
+    if True:
+        block = comm = None
+        rest = []
+        for f in factors:
+            if isinstance(f, ast.Name) and f.id in sf.prods:
+                block = sf.prods[f.id][0]
+            elif isinstance(f, ast.Call) and src(f.func) in ("np.prod", "numpy.prod") and len(f.args) == 1 and isinstance(f.args[0], ast.Name) \
+                    and f.args[0].id in sf.lists:
+                block = sf.lists[f.args[0].id]
+            elif isinstance(f, ast.Call) and isinstance(f.func, ast.Attribute) and f.func.attr == "Get_size" and not f.args:
+                comm = f.func.value
+            else:
+                rest.append(src(f))
+        if block is None or comm is None or rest:
+            und.append("candidate `" + " * ".join(src(f) for f in factors) + "`")
+            return
+        # block = list(L.shape) with [idx] = L.max_block_shape[idx], idx an axis of L; comm = <handler of L>.communicators[idx]
+        lay = block.base.replace(".shape", "")
+        keys = list(block.over)
+        if len(keys) != 1 or idx_of.get(keys[0]) is None:
+            und.append(f"block `{block.base}` with overridden positions {keys}")
+            return
+        k = keys[0]
+        if idx_of[k] != lay:
+            bad.append(f"the block of `{lay}` is padded at position `{k}`, an axis of `{idx_of[k]}`")
+            return
+        if block.over[k].replace(" ", "") != f"{lay}.max_block_shape[{k}]":
+            if block.over[k].replace(" ", "") in (f"{lay}.shape[{k}]",):
+                bad.append(f"the gathered block of `{lay}` uses this rank's own extent `{block.over[k]}`: the Allgather moves blocks padded to "
+                           "max_block_shape, so ranks with a short block advertise too little")
+            else:
+                und.append(f"block extent `{block.over[k]}`")
+            return
+        okc = isinstance(comm, ast.Subscript) and isinstance(comm.value, ast.Attribute) and comm.value.attr == "communicators" \
+            and isinstance(comm.slice, ast.Name)
+        if not okc:
+            und.append(f"communicator `{src(comm)}`")
+            return
+        hl = handler_of.get(src(comm.value.value))
+        if hl is None:
+            und.append(f"handler `{src(comm.value.value)}`")
+        elif hl != lay or comm.slice.id != k:
+            bad.append(f"the block of `{lay}` (padded along `{k}`) is multiplied by the size of `{src(comm)}`, the communicator of "
+                       f"`{hl}` along `{comm.slice.id}`: the gather receives one block per rank of the scattered layout's communicator")
+        else:
+            counts[0] += 1
+
+
+def _gather_bufsize(chk, mod, fn, sinks):
+    from .C01 import resolve_at, reaching_def
+    rel, q = mod.rel, "LayoutSwapper.__init__"
+    rule = "G4-bufsize-gather"
+    what = "buffer covers (padded scattered block) x (size of the scattered side's communicator) for every gather pair"
+    sf = ShapeFlow(fn)
+    env = inline_locals(fn)
+    bad, und = [], []
+    # getAxes results: which index belongs to which layout, and which layout is the scattered one under which guard
+    idx_of = {}       # index var -> layout var
+    for n in ast.walk(fn):
+        if isinstance(n, ast.Assign) and isinstance(n.targets[0], ast.Tuple) and isinstance(n.value, ast.Call) \
+                and isinstance(n.value.func, ast.Attribute) and n.value.func.attr == "getAxes" and len(n.value.args) == 2 \
+                and len(n.targets[0].elts) == 2 and all(isinstance(x, ast.Name) for x in list(n.targets[0].elts) + list(n.value.args)):
+            for iv, lv in zip(n.targets[0].elts, n.value.args):
+                if idx_of.get(iv.id, lv.id) != lv.id:
+                    und.append(f"index `{iv.id}` stands for an axis of two different layouts")
+                idx_of[iv.id] = lv.id
+    if not sinks:
+        und.append("no update of self._buffer_size inside the loop over layout pairs")
+    handler_of = {}
+    for n in ast.walk(fn):
+        if isinstance(n, ast.Assign) and isinstance(n.targets[0], ast.Name) and isinstance(n.value, ast.Call) \
+                and isinstance(n.value.func, ast.Attribute) and n.value.func.attr == "getLayout" and isinstance(n.value.func.value, ast.Name):
+            handler_of[n.value.func.value.id] = n.targets[0].id
+    counts = [0]
+    for s_ in sinks:
+        v, mono = s_.value, False
+        if isinstance(v, ast.Call) and src(v.func) == "max" and len(v.args) == 2 and "self._buffer_size" in (src(v.args[0]), src(v.args[1])):
+            v = v.args[1] if src(v.args[0]) == "self._buffer_size" else v.args[0]
+            mono = True
+        else:
+            for test, pol, kind in guards_of(s_):
+                if kind == "if" and isinstance(test, ast.Compare) and len(test.ops) == 1 and pol and \
+                        ((src(test.left) == src(v) and src(test.comparators[0]) == "self._buffer_size" and isinstance(test.ops[0], (ast.Gt, ast.GtE))) or
+                         (src(test.comparators[0]) == src(v) and src(test.left) == "self._buffer_size" and isinstance(test.ops[0], (ast.Lt, ast.LtE)))):
+                    mono = True
+        if not mono:
+            if isinstance(s_.value, ast.Call) and src(s_.value.func) == "min":
+                bad.append(f"`{src(s_)[:60]}` keeps the smaller value")
+            elif "self._buffer_size" not in src(s_.value) and not any("self._buffer_size" in src(t) for t, _, _ in guards_of(s_)):
+                bad.append(f"`{src(s_)[:60]}` overwrites the advertised size: the handlers' buffers and earlier pairs are forgotten")
+            else:
+                und.append(f"update `{src(s_)[:60]}`")
+            continue
+        keepn = set(sf.prods) | set(sf.lists) | set(idx_of) | set(idx_of.values()) | set(handler_of)
+        cands = [resolve_at(fn, v, s_, keep=keepn)]
+        if isinstance(v, ast.Name) and reaching_def(fn, v.id, s_) is None:
+            # bound once in each arm of a preceding `if`: every definition is a candidate, read where it is made
+            ds = [n for n in ast.walk(fn) if isinstance(n, ast.Assign) and len(n.targets) == 1 and isinstance(n.targets[0], ast.Name)
+                  and n.targets[0].id == v.id]
+            if ds:
+                cands = [resolve_at(fn, d.value, d, keep=keepn) for d in ds]
+        for vx in cands:
+            _gather_candidate(vx, sf, idx_of, handler_of, bad, und, counts)
+    full = counts[0]
+    # which block is the scattered one: the smaller of the two (the gathered layout holds the whole dimension)
+    ok = full >= 1 and not bad and not und
+    diag = "; ".join(dict.fromkeys(bad)) or None
+    o = chk.pat(rule, sinks[0] if sinks else fn, "gather receive size in __init__", ok, what, diag, file=rel, func=q)
+    if not ok and not bad:
+        o.msg = "the gather buffer size could not be read completely: " + "; ".join(dict.fromkeys(und))[:500]
+    return ok
 
 
 def comm_identity_diagnosis(fn):
@@ -419,37 +1160,78 @@ def comm_identity_diagnosis(fn):
     return None
 
 
+def comm_identity(fn):
+    """(True, None) when the communicators of the two handlers are matched by membership of the communicator OBJECT in the other
+    handler's communicators, (False, diagnosis) when they are matched through a derived quantity, (None, None) when no matching is found"""
+    d = comm_identity_diagnosis(fn)
+    if d:
+        return False, d
+    env = inline_locals(fn)
+    # variables that run over a handler's communicators
+    comm_vars = set()
+    for n in ast.walk(fn):
+        if isinstance(n, (ast.For, ast.comprehension)):
+            it = n.iter
+            if isinstance(it, ast.Call) and src(it.func) == "enumerate" and len(it.args) == 1 and isinstance(n.target, ast.Tuple) and len(n.target.elts) == 2:
+                it, tg = it.args[0], n.target.elts[1]
+            else:
+                tg = n.target
+            if isinstance(tg, ast.Name) and isinstance(it, ast.Attribute) and it.attr == "communicators":
+                comm_vars.add(tg.id)
+    good = 0
+    for n in ast.walk(fn):
+        if isinstance(n, ast.Compare) and len(n.ops) == 1 and isinstance(n.ops[0], (ast.In, ast.NotIn)):
+            right = n.comparators[0]
+            rx = expand(right, env) if isinstance(right, ast.Name) else right
+            pool = (isinstance(rx, ast.Attribute) and rx.attr == "communicators") or \
+                   (isinstance(rx, ast.Call) and src(rx.func) in ("list", "tuple") and len(rx.args) == 1 and isinstance(rx.args[0], ast.Attribute)
+                    and rx.args[0].attr == "communicators")
+            if pool and isinstance(n.left, ast.Name) and n.left.id in comm_vars:
+                good += 1
+            elif pool:
+                return None, None
+    return (True, None) if good else (None, None)
+
+
 def run(chk):
     chk.explanation = (
         "Field-location flow over LayoutSwapper.transpose (same-group, scatter, gather, multi-step; buf None/given; "
         "route lengths 1..7, 2-periodic), manager typestate at every exit, index-ownership typing of every getAxes "
         "result (6 call sites), Allgather geometry (uniform padded counts, unpack with the sender's true block "
-        "shape, placement by the source partition), scatter slice, buffer sizing, permutation typing of the 6 "
-        "block transposes. Decides the structural necessary conditions of C03; the communicator-matching heuristic "
-        "of __init__ and element-level placement are not decided.")
+        "shape, placement by the source partition) and scatter slice read symbolically from the arms, buffer sizing, "
+        "permutation typing of the block transposes. Decides the structural necessary conditions of C03; the "
+        "communicator-matching heuristic of __init__ and element-level placement are not decided.")
     chk.assumptions += [
         "LayoutHandler.transpose satisfies its contract (decided by C01)",
         "source, dest, buf distinct non-overlapping arrays of bufferSize elements",
         "numpy view/copy and Allgather contracts of DESIGN.md section 3",
         "not the plot-only rank (self._buffer_size != 0)",
+        "a true block is never larger than the padded block (C02 P2-max-block)",
     ]
     mod = chk.mod(U.LAYOUT)
     chk.in_file(U.LAYOUT)
     prog = Program(chk.repo, [U.LAYOUT])
     flow_check(chk, prog, U.LAYOUT, CLS, extra_final=manager_final)
     ncalls = 0
-    for q in ("LayoutSwapper._transpose", "LayoutSwapper._transpose_source_intact", "LayoutSwapper.__init__"):
+    for q in STEP + ("LayoutSwapper.__init__",):
         ncalls += axes_ownership(chk, mod, q)
-    chk.require(ncalls >= 6, f"C03: only {ncalls} getAxes call sites found (6 confirmed by reading)")
+    if ncalls < 6:
+        chk.ob("A1-getaxes-role-order", mod.cls(CLS), "getAxes call sites", None,
+               f"only {ncalls} getAxes call sites found (6 confirmed by reading): the scatter/gather arms were restructured", file=U.LAYOUT, func=CLS)
     gather_geometry(chk, mod, "LayoutSwapper._transpose", "dest")
     gather_geometry(chk, mod, "LayoutSwapper._transpose_source_intact", "buf")
     scatter_geometry(chk, mod, "LayoutSwapper._transpose")
     scatter_geometry(chk, mod, "LayoutSwapper._transpose_source_intact")
     init_buffer(chk, mod)
-    permcheck.check_layout_swapper(chk, mod)
+    views = ModView(mod, {q: view_of(chk, mod, q) for q in STEP})
+    engine(chk, "P1-transpose-permutation", mod.func(STEP[0]), "permutation typing of the swapper's array stores",
+           permcheck.check_layout_swapper, chk, views, file=U.LAYOUT, func=STEP[0])
     # the cached route map is only read by the transposes
     from .. import lints
     for q in (f"{CLS}.transpose", f"{CLS}._transposeRedirect", f"{CLS}._transposeRedirect_source_intact"):
+        if not mod.has(q):
+            chk.ob("G2-no-shared-mutation", mod.cls(CLS), f"{q} vs the cached route map", None, f"{q} does not exist any more", file=U.LAYOUT, func=q)
+            continue
         f_ = mod.func(q)
         muts = lints.shared_state_mutations(f_, lambda s_: s_.startswith("self._route_map") or s_.startswith("self._layouts") or s_.startswith("self._handlers"))
         chk.ob("G2-no-shared-mutation", f_, f"{q} vs the cached route map", not muts,
@@ -457,6 +1239,22 @@ def run(chk):
                " - the stored route is shortened/changed by a transpose: the next transpose between the same layouts takes a wrong route",
                file=U.LAYOUT, func=q)
     # getAxes itself: returns (position in gathered ordering of the scattered dimension, scattered axis)
+    getaxes_definition(chk, mod)
+    # the same matching in _compatibleLayout: communicators are matched as objects
+    for q in ("LayoutSwapper._compatibleLayout", "LayoutSwapper.getAxes"):
+        f_ = mod.func(q)
+        okc, d = comm_identity(f_)
+        chk.pat("A1-communicator-identity", f_, f"{q}: handlers' communicators matched as objects", okc,
+                "a process axis of one handler is identified with an axis of the other only if both hold the very same communicator",
+                d, file=U.LAYOUT, func=q)
+    chk.floor("D2-result-in-dest", 14)
+    chk.floor("M1-current-manager", 14)
+    chk.floor("A1-index-ownership", 16)
+    chk.floor("A1-getaxes-role-order", 6)
+    chk.floor("P1-", 6)
+
+
+def getaxes_definition(chk, mod):
     ga = mod.func("LayoutSwapper.getAxes")
     okga = contains(ga, """
 handlerG = self._managers[self._handlers[layout_gathered.name]]
@@ -473,18 +1271,21 @@ return (idx_g, idx_s)
     bad = None
     if not okga:
         bad = comm_identity_diagnosis(ga)
+    if not okga and bad is None:
+        # the same computation with other temporaries: the returned pair, written out
+        env = inline_locals(ga)
+        rets = [n for n in ast.walk(ga) if isinstance(n, ast.Return) and n.value is not None]
+        if len(rets) == 1 and isinstance(rets[0].value, ast.Tuple) and len(rets[0].value.elts) == 2:
+            g_, s_ = rets[0].value.elts
+            sx = xsrc(s_, env).replace(" ", "")
+            gx = xsrc(g_, {k: v for k, v in env.items() if not (isinstance(s_, ast.Name) and k == s_.id)}).replace(" ", "")
+            sn = src(s_)
+            if gx == f"layout_scattered.dims_order.index(layout_gathered.dims_order[{sn}])":
+                bad = (f"the first result is `{xsrc(g_, env)}`: a position in the SCATTERED ordering; callers use it to address the gathered layout's "
+                       "view, which needs the position of the scattered dimension in the GATHERED ordering")
+            elif gx == f"layout_gathered.dims_order.index(layout_scattered.dims_order[{sn}])" and \
+                    sx == "np.nonzero(np.array(list(handlerS.communicators))!=None)[0][0]":
+                bad = "no communicator of the gathered handler is removed from the candidates: the first process axis is returned whatever the handlers share"
     chk.pat("A1-getaxes-definition", ga, "getAxes", okga,
             "returns (axis of the gathered layout carrying the scattered dimension, process axis of the scattered handler "
             "whose communicator the gathered handler lacks)", bad, file=U.LAYOUT, func="LayoutSwapper.getAxes")
-    # the same matching in _compatibleLayout: communicators are matched as objects
-    for q in ("LayoutSwapper._compatibleLayout", "LayoutSwapper.getAxes"):
-        f_ = mod.func(q)
-        d = comm_identity_diagnosis(f_)
-        chk.ob("A1-communicator-identity", f_, f"{q}: handlers' communicators matched as objects", d is None,
-               "a process axis of one handler is identified with an axis of the other only if both hold the very same communicator"
-               if d is None else d, file=U.LAYOUT, func=q)
-    chk.floor("D2-result-in-dest", 14)
-    chk.floor("M1-current-manager", 14)
-    chk.floor("A1-index-ownership", 16)
-    chk.floor("A1-getaxes-role-order", 6)
-    chk.floor("P1-", 6)
